@@ -1,96 +1,70 @@
-// appended to src/builtin/generators.rs — C16: take/skip pipelines denote list slices, and give the same elements on every consumption
+// appended to src/builtin/generators.rs — C16: merging of take/skip into one Slice keeps the denoted window
 use crate::builtin::sequence::XSequence;
 use crate::runtime::RuntimeLimits;
-use crate::xexpr::TailedEvalResult;
-use crate::root_runtime_scope::RuntimeResult;
 
-fn gen_of<'a>(v: &'a Rc<ManagedXValue<P, P, P>>) -> Option<&'a XGenerator<P, P, P>> {
-    match &v.value {
-        XValue::Native(b) => b.as_ref()._as_any().downcast_ref::<XGenerator<P, P, P>>(),
-        _ => None,
-    }
-}
-fn value_of(r: RuntimeResult<TailedEvalResult<P, P, P>>) -> Option<Rc<ManagedXValue<P, P, P>>> {
-    let out = match &r {
-        Ok(TailedEvalResult::Value(Ok(v))) => Some(v.clone()),
-        _ => None,
-    };
-    std::mem::forget(r);
-    out
-}
-/// source: the generator over the array [100..105); a pipeline of three take/skip steps with symbolic amounts in a
-/// symbolic order; consumed twice through the real iterator.  Oracle: the same pipeline on a plain list.
-native_harness! {
-#[kani::unwind(8)]
-fn c16_take_skip_pipeline() {
+/// `XGenerator::slice(base, start, end)` applied to a base that is itself a slice (or a plain generator): the result
+/// denotes exactly the window of the *source* stream that skip(start) then take(end - start) of the base's window
+/// denotes.  (`end` is an absolute position in the base's stream; the iterator arm's own arithmetic is decided on a
+/// verbatim slice in the K-unit harness c16_slice_iter_arm.)
+#[kani::proof]
+#[kani::stub(std::collections::hash_map::RandomState::new, stub_rs)]
+#[kani::stub(std::rc::Rc::drop_slow, leak_rc)]
+#[kani::stub(std::sync::Arc::drop_slow, leak_arc)]
+#[kani::stub(crate::xvalue::ManagedXValue::new, crate::xvalue::verif_kani::value_new_unlimited)]
+#[kani::unwind(4)]
+fn c16_slice_merge() {
     let rt: Rt = no_limits();
-    let ns = crate::runtime_scope::verif_kani::bare_scope();
-    let mut root_t = RootCompilationScope::<P, P, P>::new();
-    add_generator_take(&mut root_t).unwrap();
-    let take = last_native(&root_t);
-    let mut root_s = RootCompilationScope::<P, P, P>::new();
-    add_generator_skip(&mut root_s).unwrap();
-    let skip = last_native(&root_s);
-    let mk = |t: i64| ManagedXValue::new(XValue::Int(LazyBigint::Short(t)), rt.clone()).unwrap();
-    let arr = ManagedXValue::new(XValue::Native(Box::new(XSequence::<P, P, P>::array(vec![mk(100), mk(101), mk(102), mk(103), mk(104)]))), rt.clone()).unwrap();
-    let mut cur = ManagedXValue::new(XValue::Native(Box::new(XGenerator::<P, P, P>::FromSequence(arr))), rt.clone()).unwrap();
-    // model: the window [lo, hi) of the source that is still visible
-    let (mut lo, mut hi): (usize, usize) = (0, 5);
-    let mut step = 0;
-    while step < 3 {
-        let is_take: bool = kani::any();
-        let n: u8 = kani::any();
-        kani::assume(n <= 6);
-        let args = vec![XExpr::Dummy(Ok(cur.clone())), int(LazyBigint::Short(n as i64), &rt)];
-        let r = if is_take { take(&args, &ns, false, rt.clone()) } else { skip(&args, &ns, false, rt.clone()) };
-        std::mem::forget(args);
-        match value_of(r) {
-            Some(v) => cur = v,
-            None => {
-                assert!(false, "take/skip yield a generator");
-                return;
-            }
-        }
-        if is_take {
-            if lo + (n as usize) < hi { hi = lo + n as usize; }
-        } else {
-            lo = if lo + (n as usize) < hi { lo + n as usize } else { hi };
-        }
-        step += 1;
-    }
-    let g = match gen_of(&cur) {
-        Some(g) => g,
-        None => {
-            assert!(false, "pipeline result is a generator");
-            return;
-        }
+    let src = ManagedXValue::new(XValue::Native(Box::new(XGenerator::<P, P, P>::FromSequence(
+        ManagedXValue::new(XValue::Native(Box::new(XSequence::<P, P, P>::Count)), rt.clone()).unwrap(),
+    ))), rt.clone()).unwrap();
+    // base window [b_lo, b_hi) of the source (b_hi = None: unbounded); base_is_slice = false means the source itself
+    let base_is_slice: bool = kani::any();
+    let b_lo: usize = kani::any();
+    let b_hi_some: bool = kani::any();
+    let b_hi: usize = kani::any();
+    kani::assume(b_lo <= 1000 && b_hi <= 1000 && b_lo <= b_hi);
+    let base = if base_is_slice {
+        ManagedXValue::new(XValue::Native(Box::new(XGenerator::<P, P, P>::Slice(src.clone(), b_lo, if b_hi_some { Some(b_hi) } else { None }))), rt.clone()).unwrap()
+    } else {
+        src.clone()
     };
-    let mut round = 0;
-    while round < 2 {
-        let mut count = 0usize;
-        for item in g._iter(&ns, rt.clone()) {
-            match &item {
-                Ok(Ok(v)) => match &v.value {
-                    XValue::Int(LazyBigint::Short(t)) => assert!(count < hi - lo && *t == 100 + (lo + count) as i64, "element i of the pipeline = element lo+i of the source"),
-                    _ => assert!(false, "elements are the source's ints"),
-                },
-                _ => assert!(false, "no errors or violations"),
-            }
-            std::mem::forget(item);
-            count += 1;
-            if count > 6 {
-                break;
+    let (lo0, hi0): (usize, Option<usize>) = if base_is_slice { (b_lo, if b_hi_some { Some(b_hi) } else { None }) } else { (0, None) };
+    let start: usize = kani::any();
+    let end_some: bool = kani::any();
+    let end: usize = kani::any();
+    kani::assume(start <= 1000 && end <= 1000);
+    let r = XGenerator::slice(&base, start, if end_some { Some(end) } else { None });
+    // model: positions of the base stream start..end  ->  source positions lo0+start .. min(hi0, lo0+end)
+    let want_lo = lo0 + start;
+    let want_hi: Option<usize> = match (hi0, end_some) {
+        (Some(h), true) => Some(if h < lo0 + end { h } else { lo0 + end }),
+        (Some(h), false) => Some(h),
+        (None, true) => Some(lo0 + end),
+        (None, false) => None,
+    };
+    match &r {
+        Err(_) => assert!(start == 0 && !end_some, "the base itself is returned only for the identity slice"),
+        Ok(XGenerator::Slice(inner, s, e)) => {
+            assert!(!(start == 0 && !end_some), "the identity slice returns the base");
+            if base_is_slice {
+                assert!(Rc::ptr_eq(inner, &src), "nested slices are flattened onto the source");
+                // the denoted window: [s, e) of the source, empty when e <= s
+                let denoted_empty = e.map_or(false, |e| e <= *s);
+                let want_empty = want_hi.map_or(false, |h| h <= want_lo);
+                assert!(denoted_empty == want_empty, "emptiness of the merged window");
+                if !want_empty {
+                    assert!(*s == want_lo && *e == want_hi, "the merged window is the window of the source that the pipeline denotes");
+                }
+            } else {
+                assert!(Rc::ptr_eq(inner, &base) && *s == start && *e == if end_some { Some(end) } else { None }, "a slice of a plain generator records start and end");
             }
         }
-        assert!(count == hi - lo, "the pipeline yields exactly the visible window, on every consumption");
-        round += 1;
+        Ok(_) => assert!(false, "slice yields a Slice"),
     }
-    kani::cover!(hi - lo == 3 && lo == 2, "skip(2) then take(3)-like window");
-    kani::cover!(hi == lo, "empty result");
-    std::mem::forget(cur);
-    std::mem::forget(ns);
-    std::mem::forget(root_t);
-    std::mem::forget(root_s);
+    kani::cover!(base_is_slice && b_hi_some && end_some && b_lo + end > b_hi, "take beyond the base's end");
+    kani::cover!(base_is_slice && start > 0 && end_some, "skip and take on a slice");
+    std::mem::forget(r);
+    std::mem::forget(base);
+    std::mem::forget(src);
     std::mem::forget(rt);
-}
 }
